@@ -92,9 +92,11 @@ Proof.
   - specialize (H key Hin). apply orb_prop in H as [H|H]; [apply str_eqb_eq in H; contradiction|now apply oeqb_sound].
   - rewrite !aget_notin; [reflexivity| |]; intros X; apply Hn; apply in_or_app; auto.
 Qed.
+Definition bond_simb (b b' : cbond) : bool :=
+  Z.eqb (cb_u b') (cb_u b) && Z.eqb (cb_v b') (cb_v b) && pyval_eqb (cb_ord b') (cb_ord b).
 Definition same_molb (C1 C2 : cut) : bool :=
   forallb (fun x => attrs_but_h_eqb (payload C2 x) (payload C1 x)) (map fst (c_atoms C1) ++ map fst (c_atoms C2))
-  && (Nat.eqb (length (c_bonds C2)) (length (c_bonds C1)) && forallb (fun bb => cbond_eqb (fst bb) (snd bb)) (combine (c_bonds C2) (c_bonds C1)))
+  && (Nat.eqb (length (c_bonds C1)) (length (c_bonds C2)) && forallb (fun bb => bond_simb (fst bb) (snd bb)) (combine (c_bonds C1) (c_bonds C2)))
   && nodupzb (flat C1) && nodupzb (flat C2)
   && forallb (fun x => zmem x (flat C1)) (flat C2) && forallb (fun x => zmem x (flat C2)) (flat C1).
 Lemma payload_notin C x : ~ In x (map fst (c_atoms C)) -> payload C x = [].
@@ -109,8 +111,10 @@ Proof.
   - intros x key Hk. destruct (in_dec Z.eq_dec x (map fst (c_atoms C1) ++ map fst (c_atoms C2))) as [Hin|Hn].
     + rewrite forallb_forall in H1. exact (attrs_but_h_eqb_sound _ _ (H1 x Hin) key Hk).
     + rewrite !payload_notin; [reflexivity| |]; intros X; apply Hn; apply in_or_app; auto.
-  - apply andb_prop in H2 as [HL HF]. apply Nat.eqb_eq in HL. revert HL HF. generalize (c_bonds C1). induction (c_bonds C2) as [|b r IH]; intros [|b' r'] HL HF; try discriminate; [reflexivity|].
-    cbn [combine forallb fst snd] in HF. apply andb_prop in HF as [E HF]. apply cbond_eqb_sound in E. subst b'. f_equal. apply IH; [now inversion HL|exact HF].
+  - apply andb_prop in H2 as [HL HF]. apply Nat.eqb_eq in HL. revert HL HF. generalize (c_bonds C2). induction (c_bonds C1) as [|b r IH]; intros [|b' r'] HL HF; try discriminate; [constructor|].
+    cbn [combine forallb fst snd] in HF. apply andb_prop in HF as [E HF]. constructor; [|apply IH; [now inversion HL|exact HF]].
+    unfold bond_simb in E. apply andb_prop in E as [E E3]. apply andb_prop in E as [E1 E2]. apply Z.eqb_eq in E1. apply Z.eqb_eq in E2.
+    apply pyval_eqb_sound in E3. repeat split; assumption.
   - apply NoDup_Permutation; [now apply nodupzb_sound|now apply nodupzb_sound|]. rewrite forallb_forall in H5, H6.
     intros x. split; intros Hx; apply zmem_In; auto.
 Qed.
@@ -136,7 +140,8 @@ Proof.
   intros SM F1 F2 S1 S2 x y Fx Fy. destruct (sk_edges _ _ _ S1 x y Fx Fy) as (_ & -> & _).
   assert (In x (flat C2) /\ In y (flat C2)) as [Fx2 Fy2] by (split; eapply sm_flat_in; eauto).
   destruct (sk_edges _ _ _ S2 x y Fx2 Fy2) as (_ & -> & _). rewrite !result_order_faithful by assumption.
-  unfold find_bond. now rewrite (sm_bonds _ _ SM).
+  pose proof (sm_find_bond C1 C2 SM x y) as H. destruct (find_bond C1 x y) as [b|], (find_bond C2 x y) as [b'|]; try contradiction; [|reflexivity].
+  destruct H as (_ & _ & E). cbn [option_map]. now rewrite E.
 Qed.
 
 Theorem text_returned_iso_id fo C1 C2 a1 defs1 B1 a2 defs2 B2 :
